@@ -558,9 +558,14 @@ func (as *c13actor) do(c *core.Case, env *core.Env, st *c13state, op core.Op, cl
 }
 
 // c13overlappingLocalOps tells whether two subscribe / cancel operations of
-// local subscribers of (connection, signal) overlapped in time.
+// local subscribers of (connection, signal) overlapped in time, one of them at
+// least a cancel (subscriptions alone share the count atomically: whoever
+// brings it to one registers, nobody else does).
 func c13overlappingLocalOps(subs []*c13sub, conn, sig int) bool {
-	type iv struct{ a, b int64 }
+	type iv struct {
+		a, b   int64
+		cancel bool
+	}
 	var ivs []iv
 	const inf = int64(1) << 62
 	for _, s := range subs {
@@ -572,19 +577,19 @@ func c13overlappingLocalOps(subs []*c13sub, conn, sig int) bool {
 			if b == 0 {
 				b = inf
 			}
-			ivs = append(ivs, iv{s.ackCall, b})
+			ivs = append(ivs, iv{s.ackCall, b, false})
 		}
 		if s.cancelCall != 0 {
 			b := s.cancelRet
 			if b == 0 {
 				b = inf
 			}
-			ivs = append(ivs, iv{s.cancelCall, b})
+			ivs = append(ivs, iv{s.cancelCall, b, true})
 		}
 	}
 	for i, x := range ivs {
 		for _, y := range ivs[i+1:] {
-			if x.a < y.b && y.a < x.b {
+			if x.a < y.b && y.a < x.b && (x.cancel || y.cancel) {
 				return true
 			}
 		}
